@@ -16,7 +16,10 @@ import (
 // vstrings: Unicode, punctuation, invalid UTF-8, repetitive low-vocabulary text.
 func vgenString(r *vrand, i int) string {
 	words := []string{"the", "a", "of", "license", "software", "and", "b", "c"}
-	pieces := []string{" ", "  ", "\n", "\t", ".", ",", "(", ")", "-", "é", "日本", "\xff", "\xc3", "\xe2\x80", "a", "foo", "Bar", "1.2", "©", "“", "”", " ", " ", "x_y", "&", "𝔘"}
+	pieces := []string{" ", "  ", "\n", "\t", ".", ",", "(", ")", "-", "é", "日本", "\xff", "\xc3", "\xe2\x80", "a", "foo", "Bar", "1.2", "©", "“", "”", " ", " ", "x_y", "&", "𝔘",
+		// bytes that are white space as Latin-1 characters but not as (invalid) UTF-8, alone and behind white space;
+		// the white space characters they resemble, correctly encoded
+		"\xa0", "\x85", " \xa0", "\n\x85\xa0b", "\t\x85", "\u00a0", "\u0085", "\u2003x", "\xa02017", "\xc2", "\u00a0\xa0"}
 	var sb strings.Builder
 	switch i % 5 {
 	case 0: // repetitive low vocabulary
